@@ -365,10 +365,12 @@ func loadSites() {
 			File string `json:"file"`
 			Line int    `json:"line"`
 		} `json:"sites"`
+		SyncSites []string `json:"sync_sites"`
 	}
 	if json.Unmarshal(b, &rep) != nil {
 		return
 	}
+	simhook.SyncSites = len(rep.SyncSites)
 	names := make([]string, len(rep.Sites)+1)
 	for _, s := range rep.Sites {
 		if s.ID < len(names) {
